@@ -414,7 +414,10 @@ fn decode_to_sink<Sink, A>(
             },
         }
         input.pop_front(bytes_read as u32);
-        if input.is_empty() {
+        // At the end of the stream the decoder may still hold pending output
+        // (e.g. after a truncated escape sequence): keep calling it until it
+        // reports `InputEmpty`.
+        if input.is_empty() && !last {
             return;
         }
     }
